@@ -1198,7 +1198,10 @@ impl<'a> FieldEntry<'a> {
         // since field name change by rust-analyzer is not possible when using `field.ident` span
         //
         // Same problem with `field.span()`, since it is the same as `field.ident` span when `field.vis` is empty.
-        self.field.ty.span()
+        //
+        // Only the location is taken: names in the generated code (`self`, `__other`, ...) must
+        // resolve where the macro was called, also if the field type comes from another macro.
+        self.field.ty.span().resolved_at(Span::call_site())
     }
 
     fn member(&self) -> TokenStream {
